@@ -651,6 +651,9 @@ def gen_sweep_plan(run_seed: int, k: int) -> dict:
         "property": "C15", "kind": "sweep", "run_seed": run_seed, "job": k, "grammars": {name: g["text"]}, "optimizers": optimizers, "g": name,
         "opt": rng.choices(("o_none", "o_shared", "o1"), (4, 4, 2))[0], "mode": "generated" if rng.random() < 0.4 else "interpreter",
         "pairs": pairs, "flavour": flavour, "max_rounds": 200,
+        # half of the warm sweeps add a SECOND pre-emption per round: client 1 is itself pre-empted
+        # at a seeded step and client 0 runs on (a hand-off torn in two needs both)
+        "second": rng.randrange(1, 1 << 30) if flavour == "warm" and rng.random() < 0.5 else 0,
     }
 
 
@@ -737,16 +740,19 @@ def sweep_phases(plan):
         return
     for j, (c1, c2) in enumerate(plan["pairs"]):
         flavour = plan["flavour"]
+        only_ks = None
         if only is not None:
-            ks = [k for jj, k in only if jj == j]
-            if not ks:
+            only_ks = [k for jj, k in only if jj == j]
+            if not only_ks:
                 continue
+        if only_ks is not None and flavour == "cold":
+            ks = only_ks
             setup, target = fresh()
-            if flavour in ("warm", "abort", "exhaust"):
-                # a replay of single steps still has to build its object and use it once
-                setup = setup + ([parse(target, c1)] if flavour != "exhaust" else []) + [parse(target, c2)]
             first_setup = setup
+            len_other = 0
         else:
+            # (a replay of single rounds of a warm / fault sweep runs the probe too: the rounds
+            # use the probe's object, and the second pre-emption is drawn from the probe's length)
             # probe: c1 cold, c1 warm, c2 warm -- one client, traced, line logs kept
             setup, target = fresh()
             sc = yield {
@@ -755,6 +761,7 @@ def sweep_phases(plan):
             }
             logs = sc.line_logs or {}
             cold, warm, other = logs.get(f"probe{j}.c0.0", []), logs.get(f"probe{j}.c0.1", []), logs.get(f"probe{j}.c0.2", [])
+            len_other = len(other)
             # a round costs about len(c1) + len(c2) steps: long calls are swept at an even stride
             cap = max(12, min(plan.get("max_rounds", 300), 500_000 // max(1, len(warm) + len(other))))
             if flavour == "cold":
@@ -773,6 +780,8 @@ def sweep_phases(plan):
                 ks = list(range(1, len(warm) + 1))
             if len(ks) > cap:
                 ks = ks[:: -(-len(ks) // cap)]
+            if only_ks is not None:
+                ks = only_ks
             first_setup = None
         if flavour in ("abort", "exhaust"):
             # FAULT sweep, one client: c1 is aborted at step k (abort) or runs out of frames with k
@@ -792,7 +801,11 @@ def sweep_phases(plan):
                 setup = first_setup if (n == 0 and first_setup is not None) else []
             a = parse(target, c1, f"w{j}_{k}.c0.0")
             b = parse(target, c2, f"w{j}_{k}.c1.0")
-            yield {"setup": number(setup, f"w{j}_{k}"), "clients": [[a], [b]], "schedule": {"first": 0, "traced": True, "yields": [[0, a["oid"], k, 1]]}, "faults": [], "sweep_k": k, "flavour": flavour}
+            ys = [[0, a["oid"], k, 1]]
+            if plan.get("second") and flavour == "warm":
+                j2 = 1 + common.derive_seed("C15-second", plan["second"], j, k) % max(1, len_other)
+                ys.append([1, b["oid"], j2, 0])
+            yield {"setup": number(setup, f"w{j}_{k}"), "clients": [[a], [b]], "schedule": {"first": 0, "traced": True, "yields": ys}, "faults": [], "sweep_k": k, "flavour": flavour}
 
 
 def gen_hashseed_job(seed: int, k: int) -> dict:
